@@ -581,6 +581,21 @@ func (s *StreamScenario) Check(k *sim.Kernel) []sim.Violation {
 			}
 			continue
 		}
+		if o.res.Err == "eof" && !s.apiOps() {
+			// the end of the stream is reported only when the peer has ended it
+			var cep *sim.Endpoint
+			for _, c := range k.Conns {
+				cep = c.Server
+				if s.Side == "client" {
+					cep = c.Client
+				}
+			}
+			if cep != nil {
+				if pe := cep.Peer(); pe != nil && !cep.Closed && (!pe.Closed || pe.CloseSeq > o.doneSeq) {
+					out = append(out, vio("stream", "eof-before-end-of-stream", "op %d (%s) reported the end of the stream at seq %d, but the peer had not closed its end (closed: %v, at seq %d); %d bytes of the peer's stream had been delivered", i, op.Kind, o.doneSeq, pe.Closed, pe.CloseSeq, len(segs[0].data)))
+				}
+			}
+		}
 		if o.res.Err == "eof" {
 			// what a read returns together with the end of the stream is part of the stream
 			segs[len(segs)-1].data = append(segs[len(segs)-1].data, o.res.Data...)
@@ -1029,7 +1044,34 @@ func genStreamBase(g *Gen, prop string) *StreamScenario {
 	return s
 }
 
+// genC18Bulk: volume - 17 to 24 MiB of payload behind the upgrade, read in
+// 64 KiB pieces (a generator of its own, one run in 3000).
+func genC18Bulk(g *Gen, tier string) Scenario {
+	s := genStreamBase(g, "C18")
+	s.Config = sim.Config{Sched: g.IntN(3), StickPct: 99, PipeCap: []int{0, 65536, 1 << 20}[g.IntN(3)], MaxSteps: 1000000}
+	s.UpgradeCtxEnds = false
+	block := []byte(g.BigString(60000 + g.IntN(10000)))
+	total := (17 + g.IntN(8)) << 20
+	for len(s.Stream) < total {
+		s.Stream = append(s.Stream, block...)
+	}
+	s.Stream = append(s.Stream, []byte(g.String(40))...)
+	for off, all := 0, len(s.peerBytes()); off < all; {
+		n := 1 + g.IntN(1<<20)
+		s.Peer = append(s.Peer, PeerAct{Op: "write", N: n})
+		off += n
+	}
+	for i, n := 0, len(s.Stream)/65536+40; i < n; i++ {
+		s.Ops = append(s.Ops, StreamOp{Kind: "raw", N: 65536})
+	}
+	s.PeerEnd = "close"
+	return s
+}
+
 func genC18(seed uint64, tier string) Scenario {
+	if gb := NewGen(seed, 0xC18B); gb.IntN(3000) == 0 || os.Getenv("VERIF_DEV_FORCE_BULK18") != "" {
+		return genC18Bulk(gb, tier)
+	}
 	g := NewGen(seed, 0xC18)
 	s := genStreamBase(g, "C18")
 	if s.Side == "client" && g.Pct(20) {
